@@ -37,6 +37,10 @@ pub open spec fn rsignum(x: real) -> real { if x >= 0real { 1real } else { -1rea
 pub open spec fn rsum(n: int, f: spec_fn(int) -> real) -> real
     decreases n
 { if n <= 0 { 0real } else { rsum(n - 1, f) + f(n - 1) } }
+/// L27: `old` with the elements at idx(0), idx(1), .., idx(n-1) replaced by val(0), .., val(n-1), in this order
+pub open spec fn scatter(n: int, idx: spec_fn(int) -> int, val: spec_fn(int) -> real, old: RArr) -> RArr
+    decreases n
+{ if n <= 0 { old } else { let p = scatter(n - 1, idx, val, old); RArr { len: p.len, at: |k: int| if k == idx(n - 1) { val(n - 1) } else { (p.at)(k) } } } }
 pub open spec fn rpowi(x: real, n: int) -> real
     decreases n
 { if n <= 0 { 1real } else { x * rpowi(x, n - 1) } }
